@@ -270,6 +270,17 @@ def run_optable(ctx, rep_, F):
                         rep_.ob("C02.unwrap-assign", "`%s ?= %s` is accepted only between operands of one kind" % (kname(lk), kname(rk)), "violated",
                                 "the type checker accepts it (result %s); at run time the %s value is stored into a variable declared %s" % (sorted(somes), kname(r), kname(lk)),
                                 None, fn="compiler::ast::type::TypeLayout::get_output_type", key="C02.unwrap-assign|%s|%s" % (kname(lk), kname(rk)))
+        # ... and a value that may be nil is stored only into a variable whose type admits nil: `a: int = 0  a ?= maybe()` leaves nil in an int
+        for l in base:
+            for rk in (("Opt", l), "Nil"):
+                st = T.static("Unwrap", l, rk)
+                somes = {k for (tag, k, dd) in st if tag == "Some"}
+                und = [x for x in st if x[0] not in ("Some", "None")]
+                n_unwrap += 1
+                rep_.ob("C02.unwrap-assign", "`%s ?= %s` is refused (the target's type does not admit nil)" % (kname(l), kname(rk)),
+                        "undecided" if und else ("violated" if somes else "ok"),
+                        "the type checker accepts it: when the right operand is nil the %s variable holds nil, and `a + 1` fails at run time" % kname(l) if somes else "",
+                        None, fn="compiler::ast::type::TypeLayout::get_output_type", key="C02.unwrap-assign|plain-target|%s|%s" % (kname(l), kname(rk)))
         rep_.ob("C02.unwrap-assign", "`a ?= b` is accepted by the operator table only when both operands have the same kind (%d accepted cells)" % n_unwrap,
                 "ok", "", None, key="C02.unwrap-assign|summary")
         rep_.floor("C02.unwrap-assign accepted cells", n_unwrap, 5)
